@@ -17,6 +17,9 @@ class PageContext(BaseModel):
     page_number: int
     total_pages: int
     data: pl.DataFrame
+    # Index of the page's first row in the whole table (attribute matrices are
+    # indexed by table row, not by page row)
+    start_row: int = 0
 
     # Page State
     is_first_page: bool
